@@ -23,6 +23,9 @@ def number_arms(crate, fn_name, f):
     return out
 
 
+depth_ = [0]
+
+
 def classify_number_to_text(crate, arm_body, var, ctx_emit, key, loc_fn):
     """Examines every text-producing use of `var` in the arm. Emits instances."""
     n_sites = 0
@@ -82,7 +85,23 @@ def classify_number_to_text(crate, arm_body, var, ctx_emit, key, loc_fn):
             d = n.get("def") or ""
             if any(H.path_local(a) == var for a in n["args"]) and d.startswith("blots_core::") and "format" in H.last(d):
                 n_sites += 1
-                ctx_emit(key + "#" + H.last(d), None, "number handed to %s" % d, H.loc(n))
+                # follow the number into the helper: every way the helper turns it into text must be exact as well
+                hf_ = crate.hir.get(d)
+                sub = []
+                if hf_ is not None and hf_.get("body") is not None and depth_[0] < 2:
+                    idx_ = next(i_ for i_, a in enumerate(n["args"]) if H.path_local(a) == var)
+                    pn_ = H.pat_binds(hf_["params"][idx_]) if idx_ < len(hf_.get("params", [])) else []
+                    if len(pn_) == 1:
+                        depth_[0] += 1
+                        classify_number_to_text(crate, hf_["body"], pn_[0], lambda k_, ok_, d_, loc_: sub.append((ok_, d_, loc_)), key + "#" + H.last(d), None)
+                        depth_[0] -= 1
+                if any(o is False for o, _, _ in sub):
+                    bad_ = [x for x in sub if x[0] is False][0]
+                    ctx_emit(key + "#" + H.last(d), False, "number handed to %s, which prints it inexactly: %s" % (d, bad_[1]), bad_[2] or H.loc(n))
+                elif sub and all(o is True for o, _, _ in sub):
+                    ctx_emit(key + "#" + H.last(d), True, "number handed to %s, which prints it exactly (%d site(s))" % (d, len(sub)), H.loc(n))
+                else:
+                    ctx_emit(key + "#" + H.last(d), None, "number handed to %s" % d, H.loc(n))
         if k == "Cast" and H.contains_local(n["e"], var):
             n_sites += 1
             ctx_emit(key + "#cast", False, "number cast before being printed (%s)" % n.get("ty"), H.loc(n))
@@ -233,7 +252,12 @@ def run(ctx):
                     repl_ = [n for n in H.walk(then) if H.kind(n) == "MethodCall" and n["name"] == "replace" and H.lit(n["args"][0]) and H.lit(n["args"][0])["v"] == "_"]
                     ctx.inst("C16.R3", "builder#radix-%s#underscores" % rad_, bool(repl_), "underscores removed before conversion: %s" % bool(repl_), H.loc(then))
             else:
-                ctx.inst("C16.R3", "builder#radix-branch", None, "a non-decimal branch whose prefixes / radix could not be read (prefixes %s, radix %s)" % (sorted(prefixes), rad), H.loc(then))
+                int_parse = [n for n in H.walk(num_arm["body"]) if H.kind(n) == "Call" and (n.get("def") or "").endswith("from_str_radix")]
+                float_math = [n for n in H.walk(num_arm["body"]) if H.kind(n) == "Binary" and n["op"] in ("Mul", "Add") and "f64" in (n.get("ty") or "")]
+                if prefixes and not int_parse:
+                    ctx.inst("C16.R3", "builder#radix-branch", False, "non-decimal literals (prefixes %s) are not converted through an integer parse (from_str_radix): accumulating digits in floating point rounds twice above 2^53 (%d float multiply/add site(s))" % (sorted(prefixes), len(float_math)), H.loc(then))
+                else:
+                    ctx.inst("C16.R3", "builder#radix-branch", None, "a non-decimal branch whose prefixes / radix could not be read (prefixes %s, radix %s)" % (sorted(prefixes), rad), H.loc(then))
             continue
         ok = rad in want and prefixes == want[rad]
         ctx.inst("C16.R3", "builder#radix-%s" % rad, ok, "branch tests prefixes %s, converts with radix %s; grammar admits %s" % (sorted(prefixes), rad, sorted(want.get(rad, []))), H.loc(then))
